@@ -78,8 +78,11 @@ def main():
             muts.append(dict(id="seeded/" + os.path.basename(os.path.dirname(meta)), props=j["check_with"],
                              patch=os.path.join(os.path.dirname(meta), "patch.diff")))
     else:
+        import importlib
         import mutants
-        muts = mutants.MUTANTS
+        muts = list(mutants.MUTANTS)
+        for extra in sorted(glob.glob(os.path.join(HERE, "mutants_*.py"))):
+            muts += importlib.import_module(os.path.basename(extra)[:-3]).MUTANTS
     if sel:
         muts = [m for m in muts if any(m["id"].startswith(s) or s in m["props"] for s in sel)]
     missed = 0
